@@ -556,6 +556,10 @@ def local_edits(d, path):  # noqa: C901
             renamed = [*keys[:-1], 'renamed_key']
             put('key:rename', [kind, dict(params, keys=renamed), ch])
             put('key:drop', [kind, dict(params, keys=keys[:-1]), ch[:-1]])
+            if len(keys) >= 2:
+                p3 = dict(params, keys=[f'new{i}' for i in range(len(keys))])
+                p3.pop('hist', None)
+                put('key:replace-all', [kind, p3, ch])
         if len(keys) < 5:
             p2 = dict(params, keys=[*keys, 'added_key'])
             p2.pop('hist', None)
